@@ -13,10 +13,10 @@ func sigquit() os.Signal { return syscall.SIGQUIT }
 
 // RaceReport is one "WARNING: DATA RACE" block of a GORACE log.
 type RaceReport struct {
-	Summary  string   // de-duplication key: outermost entry points + stack pair without line numbers
-	Funcs    []string // all function names in the two access stacks
-	RuntimeMap bool   // one of the accesses is inside a runtime map operation
-	Text     string
+	Summary    string   // de-duplication key: outermost entry points + stack pair without line numbers
+	Funcs      []string // all function names in the two access stacks
+	RuntimeMap bool     // one of the accesses is inside a runtime map operation
+	Text       string
 }
 
 var lineNo = regexp.MustCompile(`:\d+( \+0x[0-9a-f]+)?$`)
